@@ -27,7 +27,15 @@ func H_C06_distinct_num() {
 	for _, r := range rows {
 		verif.Assume(verif.All(verif.NotNegZero(f64of(r["a"])), verif.NotNegZero(f64of(r["b"]))))
 	}
-	got, ok := runQuery(doc, "SELECT DISTINCT a, b FROM t")
+	// with and without a window: the window applies to the distinct rows
+	win := verif.Choose("window", 2)
+	lim, off := 0, 0
+	sql := "SELECT DISTINCT a, b FROM t"
+	if win == 1 {
+		lim, off = verif.IntRange("limit", 0, 4), verif.IntRange("offset", 0, 4)
+		sql = verif.SQL("SELECT DISTINCT a, b FROM t LIMIT ? OFFSET ?", lim, off)
+	}
+	got, ok := runQuery(doc, sql)
 	if !ok {
 		return
 	}
@@ -35,7 +43,17 @@ func H_C06_distinct_num() {
 	for _, r := range rows {
 		proj = append(proj, Map{"a": r["a"], "b": r["b"]})
 	}
-	verif.Assert(verif.Eq(got, refDistinct(proj)), "distinct")
+	want := refDistinct(proj)
+	if win == 1 {
+		var cut []any
+		for i, r := range want {
+			if i >= off && i-off < lim {
+				cut = append(cut, r)
+			}
+		}
+		want = cut
+	}
+	verif.Assert(verif.Eq(got, want), "distinct")
 	verif.Reach("end")
 }
 
@@ -58,7 +76,7 @@ func H_C06_distinct_str() {
 
 // H_C06_union: A UNION [ALL] B [UNION [ALL] C] [LIMIT n].
 func H_C06_union() {
-	form := verif.Choose("form", 8)
+	form := verif.Choose("form", 10)
 	na := verif.Choose("a", 3)
 	nb := verif.Choose("b", 3)
 	mk := func(n int, col string) ([]Map, []any) {
@@ -77,8 +95,16 @@ func H_C06_union() {
 	_, c := mk(1, "c")
 	doc := Map{"a": a, "b": b, "c": c}
 	lim := verif.IntRange("limit", 0, 10)
+	off := 0
+	if form >= 8 {
+		off = verif.IntRange("offset", 0, 5)
+	}
 	var sql string
 	switch form {
+	case 8:
+		sql = verif.SQL("SELECT v FROM a UNION SELECT v FROM b LIMIT ? OFFSET ?", lim, off)
+	case 9:
+		sql = verif.SQL("SELECT v FROM a UNION ALL SELECT v FROM b LIMIT ? OFFSET ?", lim, off)
 	case 0:
 		sql = "SELECT v FROM a UNION ALL SELECT v FROM b"
 	case 1:
@@ -117,6 +143,17 @@ func H_C06_union() {
 		}
 	case 4:
 		want = append(refDistinct(cat), c...)
+	case 8, 9:
+		// the window applies after duplicate removal
+		all := cat
+		if form == 8 {
+			all = refDistinct(cat)
+		}
+		for i, r := range all {
+			if i >= off && i-off < lim {
+				want = append(want, r)
+			}
+		}
 	case 5, 6, 7:
 		inner := cat
 		if form != 6 {
